@@ -140,6 +140,9 @@ structure Cfg where
   bindTok : Bool := false
   /-- the same for `Authorize` -/
   bindSar : Bool := false
+  /-- the dispatcher proxies to `info.UpstreamCluster` (the cluster the request was bound to) instead of resolving the
+      host again at dispatch time (pkg/gateway/proxy/dispatcher/dispatcher.go, read from the source) -/
+  bindDisp : Bool := false
 deriving Repr
 
 /-- `cachedTokenAuthenticator`: `ok && successTTL > 0` → successTTL; `!ok && failureTTL > 0` → failureTTL -/
@@ -375,9 +378,19 @@ structure SarOut where
   ready : List Str
 deriving DecidableEq, Repr
 
+/-- what the dispatcher did with a request -/
+structure DispOut where
+  host : Str
+  upstream : Option Inst   -- cluster the request was bound to by WithUpstreamInfo
+  selected : Option Inst   -- cluster the dispatcher took (none: 503 "not being proxied")
+  proxied : Option Inst    -- cluster that received the request (none: 503, also when no endpoint is ready)
+  time : Time
+deriving DecidableEq, Repr
+
 inductive Out
   | tok (o : TokOut)
   | sar (o : SarOut)
+  | disp (o : DispOut)
 deriving DecidableEq, Repr
 
 /-! ## manager -/
@@ -644,6 +657,17 @@ def sarFinish (env : Env) (s : State) (rid : Rid) : State × List Out :=
     | _ => (s, [])
   | none => (s, [])
 
+/-! ## the dispatcher (last stage of the filter chain) -/
+
+/-- `dispatcher.ServeHTTP`: `cluster := extraInfo.UpstreamCluster` (or, without the binding, the cluster the host
+    resolves to now), `MatchAttributes` + `Pop` (a ready endpoint of THAT cluster), proxy. `up` is `info.UpstreamCluster`. -/
+def dispatch (env : Env) (s : State) (host : Str) (up : Option Inst) (choice : Nat) : State × List Out :=
+  let sel := if env.cfg.bindDisp then up else mgrGet s.mgr host
+  let prox := match sel with
+    | none => none
+    | some c => (pickOne s c choice).map (fun _ => c)
+  (s, [.disp ⟨host, up, sel, prox, s.clock⟩])
+
 /-! ## the small-step system -/
 
 inductive Step
@@ -657,6 +681,7 @@ inductive Step
   | sarCache (rid : Rid)
   | sarLookup (rid : Rid)
   | sarFinish (rid : Rid)
+  | dispatch (host : Str) (up : Option Inst) (choice : Nat)
 deriving DecidableEq, Repr
 
 def step (env : Env) (s : State) : Step → State × List Out
@@ -670,6 +695,7 @@ def step (env : Env) (s : State) : Step → State × List Out
   | .sarCache rid => sarCache s rid
   | .sarLookup rid => sarLookup s rid
   | .sarFinish rid => sarFinish env s rid
+  | .dispatch host up ch => dispatch env s host up ch
 
 /-- run a list of small steps, collecting the answers given -/
 def runSteps (env : Env) : State → List Step → State × List Out
@@ -700,6 +726,10 @@ inductive Macro
   | ev (e : Ev)
   | tok (hostport tok : Str) (ch1 ch2 : Nat) (bound : Bool) (mid0 mid1 mid2 : List Macro)
   | sar (hostport : Str) (attrs : Attrs) (ch : Nat) (bound : Bool) (mid0 mid : List Macro)
+  /-- one request through the whole chain: WithUpstreamInfo, `mid0`, authentication (`mid1`, `mid2` inside), `midA`,
+      the impersonation check (if `attrs`; `mid` inside), `midD`, dispatcher. A stage is only reached when the previous
+      one let the request pass (authenticated; allowed without error). -/
+  | pipe (hostport tok : Str) (attrs : Option Attrs) (mid0 mid1 mid2 midA mid midD : List Macro)
 
 structure Run where
   s : State
@@ -709,6 +739,18 @@ structure Run where
 def Run.app (r : Run) (env : Env) (st : Step) : Run :=
   let x := step env r.s st
   ⟨x.1, r.outs ++ x.2, r.steps ++ [st]⟩
+
+/-- did the authentication filter let request `rid` pass? (`WithAuthentication`: `!ok || err != nil` ⇒ 401) -/
+def tokPassed (outs : List Out) (rid : Rid) : Bool :=
+  outs.any fun o => match o with
+    | .tok t => decide (t.rid = rid) && (match t.res with | .authenticated _ => true | _ => false)
+    | _ => false
+
+/-- did the impersonation filter let it pass? (`err != nil || decision != DecisionAllow` ⇒ 403) -/
+def sarPassed (outs : List Out) (rid : Rid) : Bool :=
+  outs.any fun o => match o with
+    | .sar t => decide (t.rid = rid) && decide (t.res.decision = .allow) && t.res.err.isNone
+    | _ => false
 
 mutual
   def runMacro (env : Env) (r : Run) : Macro → Run
@@ -744,6 +786,34 @@ mutual
         else
           let r := runMacros env r mid
           r.app env (.sarFinish rid)
+    | .pipe hostport tok attrs mid0 mid1 mid2 midA mid midD =>
+      let host := hostWithoutPort hostport
+      if (mgrGet r.s.mgr host).isNone then r
+      else
+        let up := mgrGet r.s.mgr host
+        let r := runMacros env r mid0
+        let r := r.app env (.ev (.tick 1))
+        let rid := r.s.nextRid
+        let r := ((r.app env (.tokBegin rid host tok 0 up)).app env (.tokCache rid)).app env (.tokLookup rid)
+        let r := if (findTok r.s rid).isNone then r
+          else
+            let r := runMacros env r mid1
+            let r := r.app env (.tokReview rid 0)
+            if (findTok r.s rid).isNone then r
+            else (runMacros env r mid2).app env (.tokFinish rid)
+        if !tokPassed r.outs rid then r
+        else
+          let r := runMacros env r midA
+          match attrs with
+          | none => (runMacros env r midD).app env (.dispatch host up 0)
+          | some atr =>
+            let r := r.app env (.ev (.tick 1))
+            let rid2 := r.s.nextRid
+            let r := ((r.app env (.sarBegin rid2 host atr 0 up)).app env (.sarCache rid2)).app env (.sarLookup rid2)
+            let r := if (findSar r.s rid2).isNone then r
+              else (runMacros env r mid).app env (.sarFinish rid2)
+            if !sarPassed r.outs rid2 then r
+            else (runMacros env r midD).app env (.dispatch host up 0)
   def runMacros (env : Env) (r : Run) : List Macro → Run
     | [] => r
     | m :: ms => runMacros env (runMacro env r m) ms
